@@ -29,6 +29,20 @@
 (* and opens a new one, cluster.Mutex then returns new handle objects - to show that Mutex is    *)
 (* sensitive to it; on the real code it is decided by the scenarios "L" of the trace validation. *)
 (*                                                                                              *)
+(* Two more facts Mutex rests on are parameters (both FALSE in the code; the real code is decided *)
+(* by the scenarios "T" and "R" of the trace validation):                                        *)
+(*   LocalWaitTimeout  m.lock.Lock() waits as long as it takes; only the etcd part is bounded by  *)
+(*                     the deadline.  With LocalWaitTimeout the wait for m.lock ends at the       *)
+(*                     deadline too (-> LocalTimeout) and Lock returns through the same error    *)
+(*                     path, whose deferred function releases m.lock on every error - also for a  *)
+(*                     goroutine that never owned it: the next Lock of the member walks in.       *)
+(*   EvictOnUnlock     cluster.Mutex(name) returns the member's ONE handle object for (name,      *)
+(*                     session) for good (cluster.mutexes).  With EvictOnUnlock Unlock drops its  *)
+(*                     object from that registry: goroutines that already have it go on using it *)
+(*                     (`inc` numbers the objects of a handle; a goroutine keeps the one it      *)
+(*                     fetched in CallLock while it waits), later callers get a new object with  *)
+(*                     its own m.lock on the same etcd key.                                       *)
+(*                                                                                              *)
 (* Configurations (constants): (A) one handle object per member -- the way api.Server uses it -- *)
 (* shared by several goroutines; (B) two handle objects of the same member for the same name     *)
 (* (what meshcontroller/storage.New does: every storage.New(name, cls) calls cls.Mutex(name)).   *)
@@ -42,15 +56,20 @@ CONSTANTS Procs,       \* goroutines (strings)
           MaxRounds,   \* Lock calls per goroutine (bounds the model)
           MaxTimeouts, \* ctx deadlines that fire in a behaviour (bounds the model)
           MaxRegrants, \* lease re-grants (failed keep-alives) in a behaviour (bounds the model)
-          RenewSession \* BOOLEAN: FALSE = the code (the session is created once per member)
+          RenewSession, \* BOOLEAN: FALSE = the code (the session is created once per member)
+          LocalWaitTimeout, \* BOOLEAN: FALSE = the code (the wait for the process-local lock is not bounded)
+          EvictOnUnlock \* BOOLEAN: FALSE = the code (the per-name registry keeps the handle object)
 
 (* A goroutine obtains its handle with cluster.Mutex(name) before every Lock call (CallLock): the  *)
 (* handle object belongs to the session of that moment.  Gens numbers a member's leases; handle   *)
 (* objects and lock keys are indexed by (handle, generation) and (member, generation).           *)
 Gens == 1..(MaxRegrants + 1)
+(* incarnations of a handle in the member's registry (one, unless Unlock evicts) *)
+MaxInc == IF EvictOnUnlock THEN 3 ELSE 1
+Incs == 1..MaxInc
 
 VARIABLES pc,          \* per goroutine, see below
-          localHeld,   \* per handle object <<h, g>>: its sync.Mutex is locked
+          localHeld,   \* per handle object <<h, g, i>>: its sync.Mutex is locked
           key,         \* per <<member, g>>: createRevision of the etcd key name/<lease g of the member>, 0 = absent
           rev,         \* etcd store revision
           myRev,       \* per handle object: concurrency.Mutex.myRev (-1 = none)
@@ -59,9 +78,12 @@ VARIABLES pc,          \* per goroutine, see below
           lease,       \* per member: generation of its current lease (cluster.lease)
           sgen,        \* per member: generation of the lease its session is on (cluster.session)
           hgen,        \* per goroutine: generation of the handle object it uses for the current call
-          regrants     \* re-grants so far
+          regrants,    \* re-grants so far
+          inc,         \* per handle: the incarnation cluster.Mutex(name) returns now (cluster.mutexes[name])
+          hinc         \* per goroutine: the incarnation it fetched for the current call
 
-vars == <<pc, localHeld, key, rev, myRev, rounds, timeouts, lease, sgen, hgen, regrants>>
+reg == <<inc, hinc>>
+vars == <<pc, localHeld, key, rev, myRev, rounds, timeouts, lease, sgen, hgen, regrants, inc, hinc>>
 
 (* pc: "idle"  not in a call, not holding            "local" Lock called, blocked on m.lock        *)
 (*     "acq"   owns m.lock, about to run the txn     "wait"  key exists, waitDeletes               *)
@@ -71,27 +93,28 @@ vars == <<pc, localHeld, key, rev, myRev, rounds, timeouts, lease, sgen, hgen, r
 
 H(p) == HandleOf[p]
 M(p) == MemOf[HandleOf[p]]
-HG(p) == <<HandleOf[p], hgen[p]>>            \* the handle object of p's current call
+HG(p) == <<HandleOf[p], hgen[p], hinc[p]>>   \* the handle object of p's current call
 KG(p) == <<MemOf[HandleOf[p]], hgen[p]>>     \* the lock key that handle object uses
 
 Min(S) == CHOOSE x \in S : \A y \in S : x <= y
 
 Init ==
     /\ pc = [p \in Procs |-> "idle"]
-    /\ localHeld = [hg \in Handles \X Gens |-> FALSE]
+    /\ localHeld = [hg \in Handles \X Gens \X Incs |-> FALSE]
     /\ key = [mg \in Members \X Gens |-> 0]
     /\ rev = 1
-    /\ myRev = [hg \in Handles \X Gens |-> -1]
+    /\ myRev = [hg \in Handles \X Gens \X Incs |-> -1]
     /\ rounds = [p \in Procs |-> 0]
     /\ timeouts = 0
     /\ lease = [m \in Members |-> 1] /\ sgen = [m \in Members |-> 1]
     /\ hgen = [p \in Procs |-> 1] /\ regrants = 0
+    /\ inc = [h \in Handles |-> 1] /\ hinc = [p \in Procs |-> 1]
 
 (* keepAliveLease: KeepAliveOnce failed -> grantNewLease.  Nothing else happens. *)
 Regrant(m) ==
     /\ regrants < MaxRegrants
     /\ lease' = [lease EXCEPT ![m] = @ + 1] /\ regrants' = regrants + 1
-    /\ UNCHANGED <<pc, localHeld, key, rev, myRev, rounds, timeouts, sgen, hgen>>
+    /\ UNCHANGED <<pc, localHeld, key, rev, myRev, rounds, timeouts, sgen, hgen, reg>>
 
 (* h := cluster.Mutex(name) - getSession, then the member's mutex object for (name, session) - ; h.Lock() *)
 CallLock(p) ==
@@ -104,14 +127,22 @@ CallLock(p) ==
           /\ IF renew /\ key[<<m, sgen[m]>>] > 0      \* session.Close() revokes the old lease: its keys are deleted
              THEN key' = [key EXCEPT ![<<m, sgen[m]>>] = 0] /\ rev' = rev + 1
              ELSE UNCHANGED <<key, rev>>
+    /\ hinc' = [hinc EXCEPT ![p] = inc[H(p)]]     \* the registry's object for the name
     /\ pc' = [pc EXCEPT ![p] = "local"] /\ rounds' = [rounds EXCEPT ![p] = @ + 1]
-    /\ UNCHANGED <<localHeld, myRev, timeouts, lease, regrants>>
+    /\ UNCHANGED <<localHeld, myRev, timeouts, lease, regrants, inc>>
 
 LocalLock(p) ==
     /\ pc[p] = "local" /\ ~localHeld[HG(p)]
     /\ localHeld' = [localHeld EXCEPT ![HG(p)] = TRUE]
     /\ pc' = [pc EXCEPT ![p] = "acq"]
-    /\ UNCHANGED <<key, rev, myRev, rounds, timeouts, lease, sgen, hgen, regrants>>
+    /\ UNCHANGED <<key, rev, myRev, rounds, timeouts, lease, sgen, hgen, regrants, reg>>
+
+(* LocalWaitTimeout only: the deadline expires while the goroutine waits for m.lock; Lock returns the error through *)
+(* the deferred function (FailReturn), which releases m.lock                                                      *)
+LocalTimeout(p) ==
+    /\ LocalWaitTimeout /\ pc[p] = "local" /\ timeouts < MaxTimeouts
+    /\ pc' = [pc EXCEPT ![p] = "fail"] /\ timeouts' = timeouts + 1
+    /\ UNCHANGED <<localHeld, key, rev, myRev, rounds, lease, sgen, hgen, regrants, reg>>
 
 (* the tryAcquire transaction: If(createRevision(myKey) = 0).Then(put, getOwner).Else(get, getOwner) *)
 TryAcquire(p) ==
@@ -124,26 +155,26 @@ TryAcquire(p) ==
           /\ rev' = IF key[k] = 0 THEN rev + 1 ELSE rev
           /\ myRev' = [myRev EXCEPT ![HG(p)] = mine]
           /\ pc' = [pc EXCEPT ![p] = IF owner = mine THEN "held" ELSE "wait"]
-    /\ UNCHANGED <<localHeld, rounds, timeouts, lease, sgen, hgen, regrants>>
+    /\ UNCHANGED <<localHeld, rounds, timeouts, lease, sgen, hgen, regrants, reg>>
 
 (* the context deadline expires before the transaction is sent / committed *)
 AcqTimeout(p) ==
     /\ pc[p] = "acq" /\ timeouts < MaxTimeouts
     /\ pc' = [pc EXCEPT ![p] = "fail"] /\ timeouts' = timeouts + 1
-    /\ UNCHANGED <<localHeld, key, rev, myRev, rounds, lease, sgen, hgen, regrants>>
+    /\ UNCHANGED <<localHeld, key, rev, myRev, rounds, lease, sgen, hgen, regrants, reg>>
 
 (* waitDeletes(pfx, myRev-1): no key with a smaller create revision is left *)
 WaitDone(p) ==
     /\ pc[p] = "wait"
     /\ \A x \in Members \X Gens : ~(key[x] > 0 /\ key[x] < myRev[HG(p)])
     /\ pc' = [pc EXCEPT ![p] = "check"]
-    /\ UNCHANGED <<localHeld, key, rev, myRev, rounds, timeouts, lease, sgen, hgen, regrants>>
+    /\ UNCHANGED <<localHeld, key, rev, myRev, rounds, timeouts, lease, sgen, hgen, regrants, reg>>
 
 (* Get(myKey): only existence is checked *)
 Check(p) ==
     /\ pc[p] = "check"
     /\ pc' = [pc EXCEPT ![p] = IF key[KG(p)] > 0 THEN "held" ELSE "fail"]
-    /\ UNCHANGED <<localHeld, key, rev, myRev, rounds, timeouts, lease, sgen, hgen, regrants>>
+    /\ UNCHANGED <<localHeld, key, rev, myRev, rounds, timeouts, lease, sgen, hgen, regrants, reg>>
 
 DeleteKey(p) ==
     /\ key' = [key EXCEPT ![KG(p)] = 0]
@@ -155,36 +186,38 @@ Timeout(p) ==
     /\ pc[p] \in {"wait", "check"} /\ timeouts < MaxTimeouts
     /\ DeleteKey(p)
     /\ pc' = [pc EXCEPT ![p] = "fail"] /\ timeouts' = timeouts + 1
-    /\ UNCHANGED <<localHeld, rounds, lease, sgen, hgen, regrants>>
+    /\ UNCHANGED <<localHeld, rounds, lease, sgen, hgen, regrants, reg>>
 
 (* mutex.Lock's deferred function: `if panicked || err != nil { m.lock.Unlock() }` *)
 FailReturn(p) ==
     /\ pc[p] = "fail"
     /\ localHeld' = [localHeld EXCEPT ![HG(p)] = FALSE]
     /\ pc' = [pc EXCEPT ![p] = "idle"]
-    /\ UNCHANGED <<key, rev, myRev, rounds, timeouts, lease, sgen, hgen, regrants>>
+    /\ UNCHANGED <<key, rev, myRev, rounds, timeouts, lease, sgen, hgen, regrants, reg>>
 
 CallUnlock(p) ==
     /\ pc[p] = "held"
     /\ pc' = [pc EXCEPT ![p] = "rel"]
-    /\ UNCHANGED <<localHeld, key, rev, myRev, rounds, timeouts, lease, sgen, hgen, regrants>>
+    /\ UNCHANGED <<localHeld, key, rev, myRev, rounds, timeouts, lease, sgen, hgen, regrants, reg>>
 
 UnlockDelete(p) ==
     /\ pc[p] = "rel"
     /\ DeleteKey(p)
     /\ pc' = [pc EXCEPT ![p] = "rel2"]
-    /\ UNCHANGED <<localHeld, rounds, timeouts, lease, sgen, hgen, regrants>>
+    /\ inc' = IF EvictOnUnlock /\ inc[H(p)] = hinc[p] /\ inc[H(p)] < MaxInc      \* `if c.mutexes[name] == m { delete(...) }`
+              THEN [inc EXCEPT ![H(p)] = @ + 1] ELSE inc
+    /\ UNCHANGED <<localHeld, rounds, timeouts, lease, sgen, hgen, regrants, hinc>>
 
 UnlockLocal(p) ==
     /\ pc[p] = "rel2"
     /\ localHeld' = [localHeld EXCEPT ![HG(p)] = FALSE]
     /\ pc' = [pc EXCEPT ![p] = "idle"]
-    /\ UNCHANGED <<key, rev, myRev, rounds, timeouts, lease, sgen, hgen, regrants>>
+    /\ UNCHANGED <<key, rev, myRev, rounds, timeouts, lease, sgen, hgen, regrants, reg>>
 
 Progress(p) == \/ LocalLock(p) \/ TryAcquire(p) \/ WaitDone(p) \/ Check(p) \/ FailReturn(p)
                \/ CallUnlock(p) \/ UnlockDelete(p) \/ UnlockLocal(p)
 
-Next == \/ \E p \in Procs : CallLock(p) \/ Progress(p) \/ AcqTimeout(p) \/ Timeout(p)
+Next == \/ \E p \in Procs : CallLock(p) \/ Progress(p) \/ AcqTimeout(p) \/ Timeout(p) \/ LocalTimeout(p)
         \/ \E m \in Members : Regrant(m)
 
 Spec == Init /\ [][Next]_vars
@@ -194,10 +227,11 @@ FairSpec == Spec /\ \A p \in Procs : WF_vars(Progress(p))
 -----------------------------------------------------------------------------
 TypeOK ==
     /\ pc \in [Procs -> {"idle", "local", "acq", "wait", "check", "held", "fail", "rel", "rel2"}]
-    /\ localHeld \in [Handles \X Gens -> BOOLEAN]
+    /\ localHeld \in [Handles \X Gens \X Incs -> BOOLEAN]
     /\ \A mg \in Members \X Gens : key[mg] >= 0 /\ key[mg] <= rev
     /\ \A m \in Members : lease[m] \in Gens /\ sgen[m] \in Gens /\ sgen[m] <= lease[m]
-    /\ \A p \in Procs : hgen[p] \in Gens
+    /\ \A p \in Procs : hgen[p] \in Gens /\ hinc[p] \in Incs
+    /\ \A h \in Handles : inc[h] \in Incs
 
 (* C18, first clause: at most one holder (between the return of Lock and the call of Unlock) *)
 Holders == {p \in Procs : pc[p] = "held"}
@@ -206,11 +240,11 @@ Mutex == Cardinality(Holders) <= 1
 (* C18, second clause: a failed or timed-out acquisition leaves nothing behind.  Every locked     *)
 (* sync.Mutex and every etcd key is accounted for by a call in progress or a holder ...           *)
 NoResidue ==
-    /\ \A hg \in Handles \X Gens : localHeld[hg] => \E p \in Procs : HG(p) = hg /\ pc[p] \notin {"idle", "local"}
+    /\ \A hg \in Handles \X Gens \X Incs : localHeld[hg] => \E p \in Procs : HG(p) = hg /\ pc[p] \notin {"idle", "local"}
     /\ \A mg \in Members \X Gens : key[mg] > 0 => \E p \in Procs : KG(p) = mg /\ pc[p] \in {"wait", "check", "held", "rel"}
 (* ... hence at quiescence the lock is free *)
 QuiescentFree ==
-    (\A p \in Procs : pc[p] = "idle") => (\A mg \in Members \X Gens : key[mg] = 0) /\ (\A hg \in Handles \X Gens : ~localHeld[hg])
+    (\A p \in Procs : pc[p] = "idle") => (\A mg \in Members \X Gens : key[mg] = 0) /\ (\A hg \in Handles \X Gens \X Incs : ~localHeld[hg])
 
 (* every Lock call returns (granted or refused), whatever failed before *)
 Terminates == \A p \in Procs : (pc[p] = "local") ~> (pc[p] \in {"held", "idle"})
